@@ -117,6 +117,65 @@ theorem C01_block_result (E : Engine) (e1 : Bytes) (es : List Bytes) (out joined
   have : out.isEmpty = false := by cases out with | nil => exact absurd rfl ho | cons _ _ => rfl
   simp [procComplete, runAssemble, hj, wrapCompleted, this]
 
+/-! ### names: any text, kept whole, and never confused with another -/
+
+/-- the name of a store line is everything after the marker and the white space behind it, to the end of the line:
+    dots, blanks and any other character are part of the name -/
+theorem C01_store_name_is_rest_of_line (name : Bytes) (hn : dropWs name = name) :
+    assembleInput? (b!"##!=< " ++ name) = some name := by
+  have : dropWs (' ' :: name) = name := by
+    have : isWs ' ' = true := by decide
+    simp only [dropWs, List.dropWhile_cons, this, if_true]; exact hn
+  simp [assembleInput?, dropWs, stripPrefix?, isWs] at *
+  simpa [dropWs] using hn
+
+theorem C01_recall_name_is_rest_of_line (name : Bytes) (hn : dropWs name = name) :
+    assembleInput? (b!"##!=> " ++ name) = none ∧ assembleOutput? (b!"##!=> " ++ name) = some name := by
+  constructor
+  · simp [assembleInput?, dropWs, stripPrefix?, isWs]
+  · simp [assembleOutput?, dropWs, stripPrefix?, isWs] at *
+    simpa [dropWs] using hn
+
+/-- **`##!=< NAME`, any name.** The text so far goes under exactly that name. -/
+theorem C01_store_any (E : Engine) (cfg : Config) (st : Stash) (out name : Bytes)
+    (hn : dropWs name = name) (hne : name ≠ []) :
+    evalItem E cfg st (.assemble [] out) (.line (b!"##!=< " ++ name)) =
+      .ok (st.set name out, .assemble [] []) := by
+  have h1 := C01_store_name_is_rest_of_line name hn
+  have h1' : assembleInput? ('#' :: '#' :: '!' :: '=' :: '<' :: ' ' :: name) = some name := by simpa using h1
+  simp [evalItem, procLine, assembleLine, h1', hne, appendPlain, runAssemble]
+
+/-- **`##!=> NAME`, any name.** What was stored under exactly that name is appended. -/
+theorem C01_recall_any (E : Engine) (cfg : Config) (st : Stash) (out stored name : Bytes)
+    (hn : dropWs name = name) (hne : name ≠ [])
+    (hs : Parser.assocLookup name st = some stored) :
+    evalItem E cfg st (.assemble [] out) (.line (b!"##!=> " ++ name)) = .ok (st, .assemble [] (out ++ stored)) := by
+  obtain ⟨h1, h2⟩ := C01_recall_name_is_rest_of_line name hn
+  have h1' : assembleInput? ('#' :: '#' :: '!' :: '=' :: '>' :: ' ' :: name) = none := by simpa using h1
+  have h2' : assembleOutput? ('#' :: '#' :: '!' :: '=' :: '>' :: ' ' :: name) = some name := by simpa using h2
+  simp [evalItem, procLine, assembleLine, h1', h2', hne, appendPlain, runAssemble, hs]
+
+/-- what is stored under a name is what a recall of that name finds -/
+theorem C01_stash_get_set (st : Stash) (n v : Bytes) : Parser.assocLookup n (st.set n v) = some v := by
+  simp [Stash.set, Parser.assocLookup]
+
+/-- **two different names never share a slot**, however much of their spelling they share -/
+theorem C01_names_do_not_collide (st : Stash) (n1 n2 v : Bytes) (h : n1 ≠ n2) :
+    Parser.assocLookup n2 (st.set n1 v) = Parser.assocLookup n2 st := by
+  have hne : (n1 == n2) = false := by simpa using h
+  simp only [Stash.set, Parser.assocLookup, hne, Bool.false_eq_true, if_false]
+  induction st with
+  | nil => rfl
+  | cons p rest ih =>
+    obtain ⟨k, w⟩ := p
+    by_cases hk : k = n1
+    · subst hk
+      simp only [List.filter_cons, bne_self_eq_false, Bool.false_eq_true, if_false, Parser.assocLookup, hne, ih]
+    · have : (k != n1) = true := by simpa using hk
+      simp only [List.filter_cons, this, if_true, Parser.assocLookup, ih]
+
+example : Parser.assocLookup b!"grp.2" (Stash.set (Stash.set [] b!"grp.2" b!"cd") b!"grp.1" b!"ab") = some b!"cd" := by decide
+
 /-! ### language layer, under explicit hypotheses about the external engine (hypotheses, never axioms)
 
   `den t` is the language the engine's parser gives the text `t` (none: does not parse). Two laws are assumed of the
